@@ -710,3 +710,148 @@ func doublePut(v *ssa.Call, put string) string {
 	}
 	return ""
 }
+
+// discardedErrorRules: an error result that nobody looks at. Every call in the
+// three packages whose error result is unused (not assigned, assigned to the
+// blank identifier, or extracted from a tuple and never read) must be in the
+// reviewed table, keyed by caller and callee: a new one is how a failed write
+// or a cut read turns into success.
+var reviewedDiscards = map[string]string{
+	"ws.(Dialer).Dial -> (net.Conn).Close":                                                  "closing on the error path: the handshake error is what is returned",
+	"ws.(Dialer).Dial -> (net.Conn).SetDeadline":                                            "best-effort deadline: a failure shows as the I/O error of the operation it was meant to bound",
+	"ws.(Dialer).Dial -> (net.Conn).SetDeadline (deferred)":                                 "best-effort deadline: a failure shows as the I/O error of the operation it was meant to bound",
+	"ws.(HTTPUpgrader).Upgrade -> (*bufio.Writer).Flush":                                    "error path only: the refusal that is being reported must not be overwritten by the flush error (the success path stores the Flush error; decided by the httpupgrader fold)",
+	"ws.(HTTPUpgrader).Upgrade -> (net.Conn).SetDeadline":                                   "best-effort deadline: a failure shows as the I/O error of the operation it was meant to bound",
+	"ws.(HTTPUpgrader).Upgrade -> (net.Conn).SetWriteDeadline":                              "best-effort deadline: a failure shows as the I/O error of the operation it was meant to bound",
+	"ws.(HTTPUpgrader).Upgrade -> (net.Conn).SetWriteDeadline (deferred)":                   "best-effort deadline: a failure shows as the I/O error of the operation it was meant to bound",
+	"ws.(Upgrader).Upgrade -> (*bufio.Writer).Flush":                                        "error path only: the refusal that is being reported must not be overwritten (the success path returns the Flush error; decided by the upgrader fold)",
+	"ws.errorText -> (*bufio.Writer).Flush":                                                 "init-time rendering into a bytes.Buffer, which cannot fail",
+	"ws.httpError -> (net/http.ResponseWriter).Write":                                       "best-effort body of an HTTP error reply on a path that already failed",
+	"ws.httpWriteHeader -> (*bufio.Writer).WriteString":                                     "the bufio.Writer keeps the first write error and reports it at Flush, which the caller examines on the success path",
+	"ws.httpWriteHeaderBts -> (*bufio.Writer).Write":                                        "the bufio.Writer keeps the first write error and reports it at Flush, which the caller examines on the success path",
+	"ws.httpWriteHeaderBts -> (*bufio.Writer).WriteString":                                  "the bufio.Writer keeps the first write error and reports it at Flush, which the caller examines on the success path",
+	"ws.httpWriteHeaderKey -> (*bufio.Writer).WriteString":                                  "the bufio.Writer keeps the first write error and reports it at Flush, which the caller examines on the success path",
+	"ws.httpWriteResponseError -> (*bufio.Writer).WriteString":                              "the bufio.Writer keeps the first write error and reports it at Flush, which the caller examines on the success path",
+	"ws.httpWriteResponseError -> dynamic call":                                             "the header callback writes into the same bufio.Writer: the bufio.Writer keeps the first write error and reports it at Flush, which the caller examines on the success path",
+	"ws.httpWriteResponseUpgrade -> (*bufio.Writer).WriteString":                            "the bufio.Writer keeps the first write error and reports it at Flush, which the caller examines on the success path",
+	"ws.httpWriteResponseUpgrade -> dynamic call":                                           "the header callback writes into the same bufio.Writer: the bufio.Writer keeps the first write error and reports it at Flush, which the caller examines on the success path",
+	"ws.httpWriteResponseUpgrade -> httphead.WriteOptions":                                  "the bufio.Writer keeps the first write error and reports it at Flush, which the caller examines on the success path",
+	"ws.httpWriteResponseUpgrade -> ws.writeAccept":                                         "the bufio.Writer keeps the first write error and reports it at Flush, which the caller examines on the success path",
+	"ws.httpWriteUpgradeRequest -> (*bufio.Writer).WriteString":                             "the bufio.Writer keeps the first write error and reports it at Flush, which the caller examines on the success path",
+	"ws.httpWriteUpgradeRequest -> (io.WriterTo).WriteTo":                                   "the user's header writes into the same bufio.Writer: the bufio.Writer keeps the first write error and reports it at Flush, which the caller examines on the success path",
+	"ws.httpWriteUpgradeRequest -> httphead.WriteOptions":                                   "the bufio.Writer keeps the first write error and reports it at Flush, which the caller examines on the success path",
+	"ws.setupContextDeadliner -> (net.Conn).SetDeadline":                                    "poisoning / clearing the deadline is best effort (the protocol of the watcher is decided by C20.watcher-protocol)",
+	"ws.statusText -> (*bufio.Writer).Flush":                                                "init-time rendering into a bytes.Buffer, which cannot fail",
+	"ws.writeErrorText -> (*bufio.Writer).WriteString":                                      "the bufio.Writer keeps the first write error and reports it at Flush, which the caller examines on the success path",
+	"ws.writeStatusText -> (*bufio.Writer).WriteByte":                                       "the bufio.Writer keeps the first write error and reports it at Flush, which the caller examines on the success path",
+	"ws.writeStatusText -> (*bufio.Writer).WriteString":                                     "the bufio.Writer keeps the first write error and reports it at Flush, which the caller examines on the success path",
+	"wsflate.init -> compress/flate.NewWriter":                                              "fails only for an invalid compression level; the level is a constant",
+	"wsutil.(*DebugDialer).Dial -> (*bufio.Reader).Peek":                                    "fills the buffer of the reader handed back; a failure shows at the caller's first read",
+	"wsutil.(*DebugUpgrader).Upgrade -> (io.Closer).Close":                                  "drains the sniffed copy of the request for the debug report only",
+	"wsutil.(*DebugUpgrader).Upgrade -> io.Copy":                                            "drains the sniffed copy of the request for the debug report only",
+	"wsutil.(*Writer).Write -> (*wsutil.Writer).FlushFragment":                              "the writer's error is sticky in w.err, which the loop condition tests (decided by the writer method tables)",
+	"wsutil.(*Writer).Write -> (*wsutil.Writer).WriteThrough":                               "the writer's error is sticky in w.err, which the loop condition tests (decided by the writer method tables)",
+	"wsutil.(*prefetchResponseReader).Read -> (io.Closer).Close":                            "drains the sniffed copy of the response for the debug report only",
+	"wsutil.(*prefetchResponseReader).Read -> io.Copy":                                      "drains the sniffed copy of the response for the debug report only",
+	"wsutil.(ControlHandler).HandleClose -> (wsutil.ControlHandler).closeWithProtocolError": "best-effort close reply; the protocol error itself is returned to the caller",
+}
+
+func discardedErrorRules(c *Ctx, prop string) {
+	rule := prop + ".discarded-errors"
+	c.R.Rule(rule, 5, "every error result that is not examined is a reviewed case")
+	found := map[string]string{}
+	for _, fn := range c.P.AllModuleFuncs() {
+		if pk := fn.Package(); pk == nil && fn.Parent() == nil {
+			continue
+		}
+		top := fn
+		for top.Parent() != nil {
+			top = top.Parent()
+		}
+		if top.Package() == nil {
+			continue
+		}
+		switch top.Package().Pkg.Path() {
+		case ws, wsutil, wsflate:
+		default:
+			continue
+		}
+		for _, b := range fn.Blocks {
+			for _, in := range b.Instrs {
+				var cc *ssa.CallCommon
+				var val ssa.Value
+				switch x := in.(type) {
+				case *ssa.Call:
+					cc, val = x.Common(), x
+				case *ssa.Defer:
+					cc = x.Common()
+				case *ssa.Go:
+					cc = x.Common()
+				default:
+					continue
+				}
+				res := cc.Signature().Results()
+				errIdx := -1
+				for i := 0; i < res.Len(); i++ {
+					if isErrorT(res.At(i).Type()) {
+						errIdx = i
+					}
+				}
+				if errIdx < 0 {
+					continue
+				}
+				used := false
+				if val != nil && val.Referrers() != nil {
+					for _, r := range *val.Referrers() {
+						if res.Len() == 1 {
+							if _, isDbg := r.(*ssa.DebugRef); !isDbg {
+								used = true
+							}
+							continue
+						}
+						if ex, ok := r.(*ssa.Extract); ok && ex.Index == errIdx && ex.Referrers() != nil {
+							for _, rr := range *ex.Referrers() {
+								if _, isDbg := rr.(*ssa.DebugRef); !isDbg {
+									used = true
+								}
+							}
+						}
+					}
+				}
+				if used {
+					continue
+				}
+				key := astFuncName(fn) + " -> " + shortName(calleeName(cc))
+				if _, isDefer := in.(*ssa.Defer); isDefer {
+					key += " (deferred)"
+				}
+				found[key] = c.P.Pos(in.Pos())
+			}
+		}
+	}
+	var keys []string
+	for k := range found {
+		keys = append(keys, k)
+	}
+	sort.Strings(keys)
+	for _, k := range keys {
+		why, ok := reviewedDiscards[k]
+		if !ok {
+			// a helper that was split out of a reviewed function inherits its caller's cases
+			if i := strings.Index(k, " -> "); i > 0 {
+				for _, o := range c.ownerChain(k[:i])[1:] {
+					if w, has := reviewedDiscards[o+k[i:]]; has {
+						why, ok = w+" (moved into helper "+k[:i]+")", true
+						break
+					}
+				}
+			}
+		}
+		if ok {
+			c.R.OK(rule, rule+"/"+k, found[k], "reviewed: "+why)
+		} else {
+			c.R.Fail(rule, rule+"/"+k, found[k], "the error result of this call is not examined and the case was not reviewed: a failure here is reported as success")
+		}
+	}
+	c.R.Sites += len(keys)
+}
